@@ -164,6 +164,7 @@ func runC14(r *Rng, n int, replay string) {
 			// fault == -1: the fault-free run itself (also compared with the model)
 			fs, ps := mk()
 			ps.failAt = fault
+			ps.tracing = true
 			w := &World{FS: fs}
 			c := &Case{ID: id, Kind: kindName}
 			id++
@@ -199,9 +200,9 @@ func runC14(r *Rng, n int, replay string) {
 					// success although a store call failed: only acceptable when the failed call was immaterial,
 					// i.e. the result and the store are exactly what they are when nothing fails
 					if a.coq() != cleanObs[i] {
-						c.fail(fmt.Sprintf("[%s] store call %d failed during step %d (%s): the operation reported success with a result that differs from the failure-free one: %s", kindName, fault, i, o, a), o.Kind+":silent-wrong-result")
+						c.fail(fmt.Sprintf("[%s] store call %d (%s) failed during step %d (%s): the operation reported success with a result that differs from the failure-free one: %s", kindName, fault, ps.traceAt(fault), i, o, a), o.Kind+":silent-wrong-result")
 					} else if d := snapDiffExact(cleanSnap[i], storeSnapshot(ps)); d != "" {
-						c.fail(fmt.Sprintf("[%s] store call %d failed during step %d (%s): the operation reported success but the store did not take the change: %s", kindName, fault, i, o, d), o.Kind+":silent-loss")
+						c.fail(fmt.Sprintf("[%s] store call %d (%s) failed during step %d (%s): the operation reported success but the store did not take the change: %s", kindName, fault, ps.traceAt(fault), i, o, d), o.Kind+":silent-loss")
 					}
 				}
 				fired = fired || firedNow
